@@ -81,9 +81,11 @@ pub fn run(stim: &Value, rec: &Rec) {
     rec.ev(json!({"e":"sent","list":headers_json(req.headers()),"skipped":skipped,"uri":str_json(&req.uri().to_string())}));
     let resp = block_on(async { svc.ready().await.unwrap().call(req).await }).unwrap();
     let (p, body) = resp.into_parts();
+    // what the transport asks before it writes the HEADERS frame: a body that is already at its end gets END_STREAM on that frame
+    let eos = http_body::Body::is_end_stream(&body);
     let mut data = vec![]; let mut ntr = 0;
     block_on(async { let mut body = std::pin::pin!(body); while let Some(f) = body.frame().await { match f { Ok(f) => { if let Some(d) = f.data_ref() { data.extend_from_slice(d); } else { ntr += 1; } } Err(_) => break } } });
-    rec.ev(json!({"e":"resp","status":p.status.as_u16(),"list":headers_json(&p.headers),"body":bytes_json(&data),"trailers":ntr}));
+    rec.ev(json!({"e":"resp","status":p.status.as_u16(),"list":headers_json(&p.headers),"body":bytes_json(&data),"trailers":ntr,"eos":eos}));
 }
 
 pub fn gen(seed: u64, tier: &str) -> Vec<Value> {
